@@ -11,12 +11,13 @@ PROPS = {
     'C03': dict(parts=[dict(profile='C03', flavor='asan', quick=4000, thorough=300000)], level='exploration'),
     'C05': dict(parts=[dict(profile='C05', flavor='asan', quick=5000, thorough=500000)], level='exploration'),
     'C06': dict(parts=[dict(profile='C06', flavor='asan', quick=5000, thorough=500000)], level='exploration'),
-    'C07': dict(parts=[dict(profile='C07', flavor='asan', quick=4000, thorough=400000)], level='exploration'),
+    'C07': dict(parts=[dict(profile='C07', flavor='asan', quick=4000, thorough=400000),
+                       dict(profile='C07B', flavor='asan', quick=3000, thorough=300000, modeb=True)], level='exploration'),
     'C08': dict(parts=[dict(profile='C08', flavor='asan', quick=5000, thorough=500000)], level='exploration'),
     'C09': dict(parts=[dict(profile='C09', flavor='asan', quick=5000, thorough=500000)], level='exploration'),
     'C10': dict(parts=[dict(profile='C10', flavor='asan', quick=5000, thorough=500000)], level='exploration'),
-    'C11': dict(parts=[dict(profile='C11', flavor='tsan', quick=700, thorough=50000, modeb=True),
-                       dict(profile='C11', flavor='asan', quick=500, thorough=30000, modeb=True)], level='exploration'),
+    'C11': dict(parts=[dict(profile='C11', flavor='tsan', quick=2500, thorough=200000, modeb=True),
+                       dict(profile='C11', flavor='asan', quick=2500, thorough=200000, modeb=True)], level='exploration'),
     'C12': dict(parts=[dict(profile='C12', flavor='asan', quick=5000, thorough=500000)], level='exploration'),
     'C13': dict(parts=[dict(profile='C13', flavor='asan', quick=5000, thorough=500000)], level='exploration'),
     'C14': dict(parts=[dict(profile='C14', flavor='asan', quick=300, thorough=3000, enumerate=True, quick_args=['--max-subs', '500'], thorough_args=[])], level='fault_enumeration'),
@@ -59,6 +60,7 @@ def build(root, flavor):
 
 
 FRAME_RE = re.compile(r'^\s+#\d+ 0x[0-9a-f]+ in (\S+) (\S+)')
+TSAN_FRAME_RE = re.compile(r'^\s+#\d+ (\S+) (\S+?):\d+')
 
 
 def sanitizer_signature(stderr):
@@ -105,14 +107,23 @@ def sanitizer_signature(stderr):
     frames = []
     section = 0
     secframes = {0: [], 1: []}
+    allframes = {}
     for ln in lines:
         if ln.startswith('freed by thread') or ln.startswith('previously allocated by') or 'Previous ' in ln:
             section = 1
-        m = FRAME_RE.match(ln)
+        if kind.startswith('tsan:') and (ln.startswith('  Location is') or ln.startswith('  Mutex ') or ln.startswith('  Thread T')):
+            section = 2   # allocation / mutex / thread creation stacks do not identify the race
+            secframes.setdefault(2, [])
+        m = FRAME_RE.match(ln) or (TSAN_FRAME_RE.match(ln) if kind.startswith('tsan:') else None)
         if m and ('/src/lib/' in m.group(2) or '/include/ares' in m.group(2)):
             fn = m.group(1)
+            allframes.setdefault(section, []).append(fn)
             if len(secframes[section]) < 4 and fn not in secframes[section]:
                 secframes[section].append(fn)
+    if kind.startswith('tsan:'):
+        # one unlocked access races with many partners: class = the two public entry points involved (outermost c-ares frames)
+        outer = sorted(set(x[-1] for x in (allframes.get(0, []), allframes.get(1, [])) if x))
+        return kind + ':' + '|'.join(outer)
     sig = kind + ':' + ','.join(secframes[0][:3])
     if secframes[1]:
         sig += '|freed:' + ','.join(secframes[1][:2])
@@ -583,7 +594,7 @@ def selftest_determinism(root, ids, n=300):
         for part in PROPS[pid]['parts']:
             binp = build(root, part['flavor'])
             modeb = part.get('modeb', False)
-            cnt = n if not modeb else max(40, n // 6)
+            cnt = n if not modeb else max(200, n)
             a = run_parallel(binp, part['profile'], 777000001, cnt, 600, chunk=cnt // 3 or 1, modeb=modeb)
             b = run_parallel(binp, part['profile'], 777000001, cnt, 600, chunk=cnt // 7 or 1, modeb=modeb)
             ta = {r['seed']: (r['trace'], json.dumps(r.get('viol'), sort_keys=True)) for r in a['runs']}
